@@ -2,5 +2,6 @@ SPECIFICATION Spec
 CONSTANTS
   DebugPrintArgc = FALSE
   MaxCalls = 2
+  LibMemo = FALSE
 INVARIANTS StdoutExact FileUntouchedOnError LibIsResult TreeExact Alive EmitCalls
 CHECK_DEADLOCK FALSE
